@@ -256,8 +256,21 @@ fn main() {
         "C10" => p_minfile::run_c10(eff_tier, seed, &model, corpus_lines, &work),
         "C13" => p_py::run_c13(eff_tier, seed, &model, corpus_lines, &pymod, &work),
         "C15" => p_cli::run_c15(eff_tier, seed, &model, corpus_lines, &cli_bin, &work),
-        "C16" => p_cli::run_c16(eff_tier, seed, &model, corpus_lines, &cli_bin, &work),
-        "C17" => p_cli::run_c17(eff_tier, seed, &model, corpus_lines, &cli_bin, &work),
+        "C16" => {
+            let mut rep = p_cli::run_c16(eff_tier, seed, &model, corpus_lines.clone(), &cli_bin, &work);
+            // "Result or panic of the library entry points": the file API on degenerate record lists
+            let mut lib = p_file::run_files("C16", eff_tier, seed, &model, corpus_lines, &work);
+            lib.property = "C16".into();
+            lib.rules.clear();
+            lib.rules.push("library: OligoComputer file API (both writers) on degenerate record lists with delimiters of length 0, 1, 2, 3 and a multi-byte character; output compared with header ++ rows of the Lean model".into());
+            rep.merge(lib);
+            rep
+        }
+        "C17" => {
+            let mut rep = p_cli::run_c17(eff_tier, seed, &model, corpus_lines.clone(), &cli_bin, &work);
+            p_count::run_lib_histories(&mut rep, eff_tier, seed, &model, &corpus_lines, &work);
+            rep
+        }
         "C06" => p_io::run_c06(eff_tier, seed, &model, corpus_lines, &work),
         "C09" => {
             let mut rep = p_min::run_c09(eff_tier, seed, &model, corpus);
